@@ -35,8 +35,10 @@ class RT2:
     pass
 
 
-class RT3:
-    pass
+class RT3(__import__("enum").Enum):
+    # a resource type that happens to be iterable itself (an Enum class iterates over its members): one type, not a list of types
+    RED = 1
+    GREEN = 2
 
 
 RTYPES: list[type] = [RT0, RT1, RT2, RT3]
@@ -53,7 +55,7 @@ def gen_tree(rng: Any, *, max_depth: int = 4, max_fanout: int = 4, max_nodes: in
     def make(path: str, alias: str, depth: int) -> None:
         shape = rng.choice(["none", "prepare", "start", "both", "both", "start"])
         node = {"path": path, "alias": alias, "has_prepare": shape in ("prepare", "both"), "has_start": shape in ("start", "both"),
-                "prepare": [], "start": [], "children": [], "via_config": rng.random() < 0.4, "methods_in_base": rng.random() < 0.3, "fragile_repr": rng.random() < 0.2, "methods_attached_late": rng.random() < 0.2,
+                "prepare": [], "start": [], "children": [], "via_config": rng.random() < 0.4, "methods_in_base": rng.random() < 0.3, "fragile_repr": rng.random() < 0.2, "plain_methods": rng.random() < 0.2, "methods_attached_late": rng.random() < 0.2,
                 "naming": rng.choice(["class", "class", "class", "ref", "entrypoint"]),
                 # start() written as an async generator under @context_teardown (the usual pattern in asphalt components)
                 "start_ctx_teardown": rng.random() < 0.3}
@@ -362,6 +364,15 @@ class Run:
         self.annotated_factories = 0
         self.awaitable_object_factories = 0
         self.fragile_reprs = 0
+        self.shared_registrations = 0
+        self.plain_phase_calls = 0
+        run = self
+
+        class Pool:
+            def release(self_inner) -> None:  # noqa: N805
+                run.log("teardown-run", "shared-release")
+
+        self.pool = Pool()
         self.printable: set[str] = set()
         self.awaitable_object_teardowns = 0
         self.caller_ctx: Any = None
@@ -520,6 +531,14 @@ class Run:
                 run.log("teardown-run", f"ct:{path}")
 
             return generator_start
+        if node.get("plain_methods"):
+            # prepare()/start() written as plain functions that hand back an awaitable which is not a coroutine object (a
+            # wrapper produced by a decorator, a generator-based coroutine): awaited - and timed out - like any other
+            def plain(self: Any) -> Any:
+                run.plain_phase_calls += 1
+                return Deferred(method(self)) if len(path) % 2 else generator_based(method(self))
+
+            return plain
         return method
 
     async def do_step(self, path: str, phase: str, idx: int, st: list[Any]) -> None:
@@ -574,6 +593,8 @@ class Run:
                     factory.__annotations__["return"] = Union[T, type(f"Extra{rid}", (), {})]
                     add_resource_factory(factory, r["given_name"])
                     self.annotated_factories += 1
+                elif int(rid) % 2:
+                    add_resource_factory(factory, r["given_name"], types=T)  # (a single type need not be wrapped in a list)
                 else:
                     add_resource_factory(factory, r["given_name"], types=[T])
             elif r["kind"] == "afactory":
@@ -597,12 +618,14 @@ class Run:
 
                     add_resource_factory(lazy_factory, r["given_name"], types=[T])
                     self.awaitable_object_factories += 1
+                elif int(rid) % 4 == 2:
+                    add_resource_factory(afactory, r["given_name"], types=T)
                 else:
                     add_resource_factory(afactory, r["given_name"], types=[T])
             else:
                 v = Value(rid)
                 self.values[rid] = v
-                types = [T] if r["kind"] == "static" else [RTYPES[r["extra_type"]], T]
+                types = ([T] if int(rid) % 2 else T) if r["kind"] == "static" else [RTYPES[r["extra_type"]], T]
                 if td is not None:
                     add_resource(v, r["given_name"], types, teardown_callback=td)
                     self.log("teardown-reg", f"res{rid}")
@@ -667,8 +690,15 @@ class Run:
             def probe(tid: int = tid) -> None:
                 run.log("teardown-run", f"td{tid}")
 
-            add_teardown_callback(probe)
-            self.log("teardown-reg", f"td{tid}")
+            if tid % 3 == 0:
+                # several components give back their lease on one shared pool: each registers `pool.release`, a bound method that
+                # compares equal to the one its neighbour registered - and each registration is a callback of its own
+                add_teardown_callback(run.pool.release)
+                self.log("teardown-reg", "shared-release")
+                run.shared_registrations += 1
+            else:
+                add_teardown_callback(probe)
+                self.log("teardown-reg", f"td{tid}")
         elif kind == "substart":
             from asphalt.core import Component, start_component
 
@@ -931,6 +961,10 @@ def check_success(run: Run, *, exact_schedule: bool = True) -> tuple[list[dict[s
         inc("optional_lookups_through_inject", run.via_inject)
     if run.annotated_factories:
         inc("factories_typed_by_a_union_return_annotation", run.annotated_factories)
+    if run.plain_phase_calls:
+        inc("prepare_or_start_methods_returning_a_non_coroutine_awaitable", run.plain_phase_calls)
+    if run.shared_registrations >= 2:
+        inc("trees_registering_one_bound_method_as_teardown_callback_more_than_once")
     if run.fragile_reprs:
         inc("components_whose_repr_raises_before_start", run.fragile_reprs)
     if run.awaitable_object_factories:
